@@ -36,9 +36,28 @@ def time_limit(seconds):
         signal.signal(signal.SIGALRM, old)
 
 
+@contextlib.contextmanager
+def memory_limit(gib=6):
+    """Cap the address space of this process while the implementation runs: a changed implementation that pads a list to 10^9
+    entries (a bound read in the wrong unit) gets a MemoryError - an outcome - instead of taking the machine down; the alarm of
+    `time_limit` cannot interrupt a single huge allocation."""
+    import resource
+    soft, hard = resource.getrlimit(resource.RLIMIT_AS)
+    cap = gib * 2 ** 30
+    try:
+        resource.setrlimit(resource.RLIMIT_AS, (cap if hard == resource.RLIM_INFINITY else min(cap, hard), hard))
+    except (ValueError, OSError):
+        yield
+        return
+    try:
+        yield
+    finally:
+        resource.setrlimit(resource.RLIMIT_AS, (soft, hard))
+
+
 def guarded(fn, limit=20.0, timeout_is_outcome=False):
     try:
-        with time_limit(limit), contextlib.redirect_stdout(_DEVNULL):
+        with time_limit(limit), memory_limit(), contextlib.redirect_stdout(_DEVNULL):
             return ("ok", fn())
     except CaseTimeout:
         if timeout_is_outcome:
@@ -101,6 +120,32 @@ def make_spec(kind, text, variables, semantics=None, io=None, consts=(), unit=No
         spec.add_sub_spec(s)
     spec.spec = text
     return spec
+
+
+def name_collisions(spec):
+    """Nodes of the parsed specification that print the same name although they differ in class, interval (numbers and units),
+    comparison operator, value, variable or operands.  The online interpreters store one operator object per node name, and the
+    model keys them by the formula: it relies on the printed name being injective."""
+    seen, out = {}, []
+
+    def key(n):
+        k = [type(n).__name__]
+        for a in ("begin", "end", "begin_unit", "end_unit", "operator", "val", "var", "field"):
+            if hasattr(n, a):
+                k.append((a, str(getattr(n, a))))
+        k.append(tuple(key(c) for c in getattr(n, "children", [])))
+        return tuple(k)
+
+    def walk(n):
+        for c in getattr(n, "children", []):
+            walk(c)
+        nm, kk = getattr(n, "name", None), key(n)
+        if nm in seen and seen[nm] != kk:
+            out.append(nm)
+        seen.setdefault(nm, kk)
+    for s in spec.ast.specs:
+        walk(s)
+    return out
 
 
 def eval_offline_discrete(text, variables, data, n, time=None, limit=20.0, timeout_is_outcome=False, **kw):
